@@ -281,6 +281,81 @@ func main() {
 				e.Strs("midToTimeExpr", append(a, b...), "seq.MIDToTime / MIDToDuration")
 			}
 		}
+		// searchShard: the arms of `switch resp.Code` (each must return an error) and all declared SearchErrorCode values
+		if f, err := r.Load("proxy/search/ingestor.go"); err != nil {
+			e.Missing("shardCodeArms", err)
+		} else if fd := f.Func("Ingestor", "searchShard"); fd == nil {
+			e.Missing("shardCodeArms", "searchShard not found")
+		} else {
+			var arms []string
+			allErr := true
+			ast.Inspect(fd.Body, func(n ast.Node) bool {
+				sw, ok := n.(*ast.SwitchStmt)
+				if !ok || sw.Tag == nil || f.Render(sw.Tag) != "resp.Code" {
+					return true
+				}
+				for _, st := range sw.Body.List {
+					cc := st.(*ast.CaseClause)
+					returnsErr := false
+					for _, b := range cc.Body {
+						if ret, ok := b.(*ast.ReturnStmt); ok && len(ret.Results) == 3 && f.Render(ret.Results[0]) == "nil" && f.Render(ret.Results[2]) != "nil" {
+							returnsErr = true
+						}
+					}
+					for _, l := range cc.List {
+						arms = append(arms, f.Render(l))
+					}
+					if cc.List == nil || !returnsErr {
+						allErr = false
+					}
+				}
+				return true
+			})
+			e.Strs("shardCodeArms", arms, "searchShard: case labels of `switch resp.Code`")
+			e.Bool("shardCodeArmsReturnErr", allErr && len(arms) > 0, "every arm returns (nil, source, error); there is no default arm")
+		}
+		if f, err := r.Load("pkg/storeapi/store_api.pb.go"); err != nil {
+			e.Missing("searchErrorCodes", err)
+		} else {
+			var names []string
+			for _, d := range f.AST.Decls {
+				gd, ok := d.(*ast.GenDecl)
+				if !ok {
+					continue
+				}
+				for _, sp := range gd.Specs {
+					if vs, ok := sp.(*ast.ValueSpec); ok && vs.Type != nil && f.Render(vs.Type) == "SearchErrorCode" {
+						for _, n := range vs.Names {
+							names = append(names, n.Name)
+						}
+					}
+				}
+			}
+			e.Strs("searchErrorCodes", names, "all declared values of storeapi.SearchErrorCode")
+		}
+		// parseNum is exactly strconv.ParseFloat(str, 64) with NaN / Inf / error rejected
+		if ag, err := r.Load("frac/processor/aggregator.go"); err != nil {
+			e.Missing("parseNumCalls", err)
+		} else {
+			if fd := ag.Func("", "parseNum"); fd == nil {
+				e.Missing("parseNumCalls", "parseNum not found")
+			} else {
+				var calls, conds []string
+				ast.Inspect(fd.Body, func(n ast.Node) bool {
+					switch x := n.(type) {
+					case *ast.CallExpr:
+						if c := ag.Render(x); strings.HasPrefix(c, "strconv.") {
+							calls = append(calls, c)
+						}
+					case *ast.IfStmt:
+						conds = append(conds, ag.Render(x.Cond))
+					}
+					return true
+				})
+				e.Strs("parseNumCalls", calls, "parseNum: every strconv call")
+				e.Strs("parseNumErrConds", conds, "parseNum: conditions under which it returns an error")
+			}
+		}
 		se, err := r.Load("frac/processor/search.go")
 		if err != nil {
 			e.Missing("search.go", err)
@@ -351,5 +426,5 @@ func main() {
 			})
 			e.Strs("extractTimeRule", rule, "provideExtractTimeFunc: guard and the returned bin expressions")
 		}
-	}, "consts/consts.go", "seq/qpr.go", "frac/processor/eval_tree.go", "frac/processor/search.go", "frac/processor/aggregator.go", "frac/active_index.go", "frac/sealed_index.go", "node/sourced_node_wrapper.go", "seq/seq.go", "storeapi/grpc_search.go", "proxy/search/ingestor.go", "proxyapi/grpc_v1.go")
+	}, "consts/consts.go", "seq/qpr.go", "frac/processor/eval_tree.go", "frac/processor/search.go", "frac/processor/aggregator.go", "frac/active_index.go", "frac/sealed_index.go", "node/sourced_node_wrapper.go", "seq/seq.go", "storeapi/grpc_search.go", "proxy/search/ingestor.go", "proxyapi/grpc_v1.go", "pkg/storeapi/store_api.pb.go")
 }
